@@ -6,6 +6,8 @@
 From MC Require Import lib.Prelude lib.AMap model.Bank.
 
 Definition BAD_ADDR : addr := -999.     (* a string that does not parse as a bech32 address *)
+Definition EMPTY_ADDR : addr := -100.   (* the empty string (= go_zero_addr of lib/GoSdk.v): sdk.AccAddressFromBech32("") is an error too *)
+Definition addr_parses (a : addr) : bool := negb (a =? BAD_ADDR) && negb (a =? EMPTY_ADDR).
 
 Record ent_params := {
   ep_denom : denom;              (* < 0 encodes a malformed / blank denomination *)
@@ -18,7 +20,7 @@ Record ent_params := {
 Definition ent_params_valid (p : ent_params) : bool :=
   (0 <=? ep_denom p) && (0 <? ep_min_accepts p) && (0 <? ep_time_limit p)
   && negb (Nat.eqb (List.length (ep_signers p)) 0)
-  && forallb (fun a => negb (a =? BAD_ADDR)) (ep_signers p)
+  && forallb addr_parses (ep_signers p)
   && (ep_min_accepts p <=? Z.of_nat (List.length (ep_signers p))).
 
 Definition ST_NIL : Z := 0.
@@ -248,7 +250,7 @@ Fixpoint process_accepted (ids : list Z) (b : bank) (s : ent_state) : outcome (b
       | Some o =>
           if negb (po_status o =? ST_ACCEPTED) then Panic PANIC_BLOCKER else
           let s1 := with_pos s (aset id (set_po_status o ST_COMPLETED 0 false) (e_pos s)) (e_raisedq s) (e_acceptedq s) in
-          if po_purchaser o =? BAD_ADDR then Panic PANIC_BLOCKER else
+          if negb (addr_parses (po_purchaser o)) then Panic PANIC_BLOCKER else
           match mint_and_lock b s1 (po_purchaser o) (po_denom o, po_amount o) with
           | Ok (b2, s2) =>
               process_accepted rest b2 (with_pos s2 (e_pos s2) (e_raisedq s2) (remove_z id (e_acceptedq s2)))
